@@ -65,8 +65,13 @@ def gen_pattern(rng, names):
             a = atom(depth)
             q = ""
             # never quantify a group that already contains a quantifier (exponential backtracking)
-            if rng.random() < 0.35 and not (a.startswith("(") and any(ch in a for ch in "*+?{")):
-                q = rng.choice(["*", "+", "?", "{0,2}", "{1,3}", "{2}", "*?"])
+            if rng.random() < 0.35:
+                if a.startswith("("):
+                    # groups only get small bounded repetition: "(.|.x)+" style ambiguity is exponential
+                    # for backtracking matchers (libstdc++ and python alike) on a 255-byte name
+                    q = "" if any(ch in a for ch in "*+{") else rng.choice(["?", "{0,2}", "{1,3}", "{2}"])
+                else:
+                    q = rng.choice(["*", "+", "?", "{0,2}", "{1,3}", "{2}", "*?"])
             out.append(a + q)
         return "".join(out)
 
@@ -77,7 +82,7 @@ def gen_pattern(rng, names):
         if len(n) > 40:
             return esc(n[:3]) + ".*" + esc(n[-2:])
         cut = rng.randint(0, len(n))
-        mid = rng.choice([".*", ".+", "[a-z ]*", "(.|x)*", ".{0,%d}" % (len(n) + 2)])
+        mid = rng.choice([".*", ".+", "[a-z ]*", "(.|x){0,3}.*", ".{0,%d}" % (len(n) + 2)])
         if rng.random() < 0.5:
             return randcase(rng, esc(n[:cut])) + mid
         return mid + randcase(rng, esc(n[cut:]))
